@@ -32,7 +32,28 @@ def main():
         if args.selftest:
             return mod.selftest()
         run = Run(pid, args.tier, seed, mod.LEVEL)
-        mod.check(run)
+        try:
+            mod.check(run)
+        except Exception as exc:  # noqa: BLE001
+            # An exception that was raised *inside the library under test* and that no driver anticipated (they record the
+            # exceptions the properties talk about) is a verdict about the library, not a failure of the machinery: on the
+            # unchanged tree every driver runs to completion.  Anything raised by the harness itself stays exit 2.
+            import traceback
+            from .core import REPO
+            text = "".join(traceback.format_exception(type(exc), exc, exc.__traceback__))
+            cause = exc.__cause__
+            while cause is not None:           # multiprocessing attaches the worker's traceback as a RemoteTraceback cause
+                text += str(cause)
+                cause = cause.__cause__
+            files = [ln.strip() for ln in text.splitlines() if ln.strip().startswith('File "')]
+            inner = files[-1] if files else ""
+            if f'File "{os.path.join(REPO, "iodata")}' in inner and "/test/" not in inner:
+                where = inner.split(",")[0].replace(REPO, "").replace('File "', "").strip('"') + ":" + inner.split("line ")[-1].split(",")[0]
+                run.violation(f"unanticipated {type(exc).__name__} raised inside the library at {where}",
+                              f"{type(exc).__name__}: {str(exc)[:200]}", {"traceback": text[-3000:]})
+                run.notes["aborted_by_library_exception"] = True
+                return run.finish()
+            raise
         return run.finish()
 
     main_guard(go)
